@@ -33,10 +33,11 @@ const (
 	fkUntrustedRoot
 	fkSelfSigned
 	fkWrongKEM // server only (hidden mode)
+	fkSameLabelOtherType
 	fkCount
 )
 
-var fakeNames = []string{"honest", "valid-cert-other-key", "cert-for-other-name", "expired", "not-yet-valid", "intermediate-typed-leaf", "untrusted-root", "self-signed", "wrong-kem-key"}
+var fakeNames = []string{"honest", "valid-cert-other-key", "cert-for-other-name", "expired", "not-yet-valid", "intermediate-typed-leaf", "untrusted-root", "self-signed", "wrong-kem-key", "same-label-other-name-type"}
 
 // identity is the material a peer presents.
 type identity struct {
@@ -66,6 +67,14 @@ func makeIdentity(r *Run, kind fakeKind, trusted *PKI, name certs.Name, otherNam
 	case fkOtherName:
 		id.leaf, id.inter = trusted.Leaf(certKey, 24*time.Hour, otherName), trusted.Int
 		id.nameOK = false
+	case fkSameLabelOtherType:
+		// the expected label, certified under another name type (e.g. a raw-string user name equal to the DNS name)
+		t := certs.TypeRaw
+		if name.Type == certs.TypeRaw {
+			t = certs.TypeDNSName
+		}
+		id.leaf, id.inter = trusted.Leaf(certKey, 24*time.Hour, certs.Name{Type: t, Label: name.Label}), trusted.Int
+		id.nameOK = false
 	case fkExpired:
 		id.leaf, id.inter = trusted.Leaf(certKey, 10*time.Second, name), trusted.Int
 		id.waitBefore = 10*time.Second + time.Duration(r.Intn("expiry", 3))*time.Second
@@ -90,6 +99,65 @@ func makeIdentity(r *Run, kind fakeKind, trusted *PKI, name certs.Name, otherNam
 		id.chainOK = false
 	}
 	return id
+}
+
+// forgeProofs lets the impostors of a run tamper with the proofs in their OWN final handshake
+// messages (ClientAuth, hidden ClientRequest, ServerAuth, hidden ServerResponse): a party that
+// does not hold the certified key cannot compute the last MAC, so it tries the cheap
+// substitutes -- leave it out (truncate), shorten it, zero it, invert it, swap its halves,
+// repeat the previous field.  None of this can make an impostor authentic; the oracle is unchanged.
+func forgeProofs(r *Run, n *Net, isImpostor func(src string) bool) {
+	if r.Intn("forge", 3) != 0 {
+		return
+	}
+	mode := r.Intn("forge", 8)
+	cut := 1 + r.Intn("forge", 32)
+	r.SetCfg("forge", mode)
+	n.Tap = func(d *Dgram) bool {
+		if len(d.Data) < 64 || !isImpostor(d.Src.String()) {
+			return true
+		}
+		switch d.Data[0] {
+		case 0x04, 0x05, 0x08, 0x09:
+		default:
+			return true
+		}
+		c := d.clone()
+		L := len(c.Data)
+		mac := c.Data[L-16:]
+		switch mode {
+		case 0: // the final MAC left out
+			c.Data = c.Data[:L-16]
+		case 1: // cut short by 1..32 bytes
+			c.Data = c.Data[:L-cut]
+		case 2:
+			for i := range mac {
+				mac[i] = 0
+			}
+		case 3: // every byte inverted (same XOR fold, same length)
+			for i := range mac {
+				mac[i] ^= 0xff
+			}
+		case 4: // halves swapped (same byte multiset)
+			for i := 0; i < 8; i++ {
+				mac[i], mac[i+8] = mac[i+8], mac[i]
+			}
+		case 5: // the preceding 16 bytes repeated
+			copy(mac, c.Data[L-32:L-16])
+		case 6: // only the first byte kept
+			c.Data = c.Data[:L-15]
+		case 7: // two bytes changed by the same mask
+			m := byte(1 + r.Intn("forge", 255))
+			i := r.Intn("forge", 16)
+			j := (i + 1 + r.Intn("forge", 15)) % 16
+			mac[i] ^= m
+			mac[j] ^= m
+		}
+		c.Mut = fmt.Sprintf("forged-proof/%d", mode)
+		r.CountFault(fmt.Sprintf("counterfeit-forged-proof/%d", mode), 1)
+		n.Redeliver(c, n.Cfg.Latency)
+		return false
+	}
 }
 
 func scCounterfeit(r *Run) {
@@ -125,6 +193,9 @@ func scCounterfeit(r *Run) {
 			must(err)
 		}
 		ep := n.Listen("server", Addr(1, 77), nil)
+		if !(id.possession && kind != fkWrongKEM) {
+			forgeProofs(r, n, func(src string) bool { return src == Addr(1, 77).String() })
+		}
 		cfg := transport.ServerConfig{KeyPair: id.exchanger, KEMKeyPair: srvKEM, Certificate: id.leaf, Intermediate: id.inter,
 			HandshakeTimeout: 3 * time.Second, ClientVerify: &transport.VerifyConfig{InsecureSkipVerify: true}, IsHidden: hidden}
 		srv, err := transport.NewServer(ep, cfg)
@@ -199,6 +270,9 @@ func scCounterfeit(r *Run) {
 	authKeys := AuthKeySet()
 	for i := 0; i < nClients; i++ {
 		kind := fakeKind(r.Intn("kind", int(fkWrongKEM)))
+		if r.Intn("kind", 10) == 0 {
+			kind = fkSameLabelOtherType // (server policies here request no name: must be treated like an honest client)
+		}
 		if i == nClients-1 && r.Intn("kind", 3) == 0 {
 			kind = fkHonest
 		}
@@ -257,6 +331,14 @@ func scCounterfeit(r *Run) {
 			r.CountFault("counterfeit-client/"+fakeNames[id.kind], 1)
 		}
 	}
+	forgeProofs(r, n, func(src string) bool {
+		for _, c := range cls {
+			if !c.id.possession && src == Addr(c.addr, 4000).String() {
+				return true
+			}
+		}
+		return false
+	})
 	// all clients run concurrently
 	done := make(chan struct{}, len(cls))
 	for _, c := range cls {
